@@ -57,6 +57,8 @@ def jacts(acts):
 def build_frame(fs):
   """frame spec (JSON dict) -> bytes"""
   raw = _build_frame(fs)
+  if fs.get("pad") and fs["kind"] in ("udp", "tcp", "icmp", "ipother"):
+    raw += b"\0" * fs["pad"]          # Ethernet padding after the datagram
   if fs.get("vlan") and fs.get("vlan2"):
     # a second 802.1Q tag under the first (the 12-tuple only looks at the
     # outer one: dl_type is then 0x8100)
@@ -77,6 +79,11 @@ def _build_frame(fs):
     frag = fs.get("frag")
     if k == "udp":
       l4 = F.udp(sip, dip, fs["sport"], fs["dport"], pay)
+      if frag and frag[0] and frag[1] == 0 and fs.get("fragcut"):
+        # a real first fragment: the UDP header describes the whole
+        # datagram, of which only the beginning is here
+        l4 = F.udp(sip, dip, fs["sport"], fs["dport"],
+                   pay + bytes(fs["fragcut"]))[:len(l4)]
       proto = 17
     elif k == "tcp":
       l4 = F.tcp(sip, dip, fs["sport"], fs["dport"], pay,
@@ -91,6 +98,8 @@ def _build_frame(fs):
     flags, off = (0, 0)
     if frag:
       flags, off = (1 if frag[0] else 0), frag[1]
+    if fs.get("df"):
+      flags |= 2
     ip = F.ipv4(sip, dip, proto, l4, tos=fs.get("tos", 0), flags=flags,
                 frag=off, ident=fs.get("ident", 1),
                 options=bytes.fromhex(fs.get("ipopts", "")))
@@ -501,7 +510,7 @@ class Ref(object):
                % (ctx, len(left), left[0]["in_port"], left[0]["reason"],
                   len(left[0]["data"])))
 
-  def expect_packet_in(self, in_port, frame, reason, limit):
+  def expect_packet_in(self, in_port, frame, reason, limit, store=None):
     mdl = self.model
     d = None
     for i, x in enumerate(self.async_in):
@@ -543,7 +552,7 @@ class Ref(object):
         self.dev("C18", "packet-in/data", "buffered packet_in carries %d "
                  "bytes (limit %d) or not a prefix of the frame"
                  % (len(d["data"]), limit))
-      mdl.buffers[bid] = (frame, in_port)
+      mdl.buffers[bid] = (frame if store is None else store, in_port)
       self.last_buffer = bid
       self.sim.probes["pi_buffered"] += 1
       if len(d["data"]) < len(frame):
@@ -555,9 +564,11 @@ class Ref(object):
                   "none" if bid == W.NO_BUFFER else bid),
                kf="C18-total-len-truncated")
 
-  def process_lookup(self, port, raw, injected=True, outs=None, pre=()):
+  def process_lookup(self, port, raw, injected=True, outs=None, pre=(),
+                     wire=None):
     """model side of a frame entering the table on `port` (the
-    implementation has already processed it)"""
+    implementation has already processed it); `wire` is the frame as it was
+    received when that differs from what is forwarded (padding)"""
     mdl = self.model
     sim = self.sim
     now = sim.now
@@ -603,7 +614,8 @@ class Ref(object):
           self.dev("C12", "no-packet-in-ignored", "packet_in sent for a "
                    "port with NO_PACKET_IN")
         return
-      self.expect_packet_in(port, raw, W.R_NO_MATCH, mdl.miss_send_len)
+      self.expect_packet_in(port, raw if wire is None else wire,
+                            W.R_NO_MATCH, mdl.miss_send_len, store=raw)
       return
     f, _, db = fired[0]
     if f not in cands:
@@ -653,7 +665,14 @@ class Ref(object):
       return
     self.sync()
     self.world.take_out()
-    self.world.inject(port, raw, with_data=st.get("with_data", True))
+    body = F.strip_padding(raw)
+    padded = body != raw
+    if padded:
+      # (a datapath always has the bytes it received; what it forwards or
+      # buffers is the re-serialised parse, i.e. the frame less its padding)
+      self.sim.probes["frame_with_padding"] += 1
+    self.world.inject(port, raw,
+                      with_data=True if padded else st.get("with_data", True))
     self.sim.drain()
     self.sort_msgs()
     stp = is_stp_dst(raw)
@@ -679,7 +698,7 @@ class Ref(object):
       return
     mdl.rx[port][0] += 1
     mdl.rx[port][1] += len(raw)
-    self.process_lookup(port, raw)
+    self.process_lookup(port, body, wire=raw)
     self.no_more_packet_ins("frame")
     self.sync()
 
@@ -699,7 +718,10 @@ class Ref(object):
         self.dev("C13", "packet-out/reply", "packet_out answered with %r"
                  % ([d["name"] for d in rs],))
       outs = self.world.take_out()
-      exp_outs, events = mdl.run_actions(acts, frame, in_port)
+      # (the switch works on the re-serialised parse of the data: padding
+      # after an IP datagram does not survive)
+      exp_outs, events = mdl.run_actions(acts, F.strip_padding(frame),
+                                         in_port)
       self.finish(outs, exp_outs, events, in_port, "C12", "packet-out",
                   "packet_out in_port=%#x actions %s" % (in_port, acts))
       self.sim.probes["packet_out_data"] += 1
